@@ -44,6 +44,11 @@ def run_patch(prop, patch, repo='/repo'):
         shutil.rmtree(d, ignore_errors=True)
 
 
+def _job(args):
+    prop, patch, repo = args
+    return (patch, run_patch(prop, patch, repo))
+
+
 def run_for(prop, repo='/repo'):
     vio = sorted(glob.glob(os.path.join(HERE, 'selftest', 'violations', prop + '-*.patch')))
     # mutants written by independent sub-agents (kept with their demonstration under seeded/)
@@ -52,9 +57,11 @@ def run_for(prop, repo='/repo'):
     failures = []
     det = tot = sil = etot = skipped = 0
     details = []
-    with ThreadPoolExecutor(max_workers=8) as ex:
-        vr = list(ex.map(lambda p: (p, run_patch(prop, p, repo)), vio))
-        er = list(ex.map(lambda p: (p, run_patch(prop, p, repo)), eqv))
+    # one process per patched tree (the analysis is CPU-bound Python; threads would share one core)
+    from concurrent.futures import ProcessPoolExecutor
+    with ProcessPoolExecutor(max_workers=min(10, os.cpu_count() or 4)) as ex:
+        vr = list(ex.map(_job, [(prop, p, repo) for p in vio]))
+        er = list(ex.map(_job, [(prop, p, repo) for p in eqv]))
     for p, r in vr:
         name = os.path.basename(p) if not p.endswith('patch.diff') else 'seeded/' + os.path.basename(os.path.dirname(p))
         if r['status'] == 'skipped':
